@@ -690,8 +690,16 @@ func runC101(cw *caseWriter, tier string, seed uint64) {
 
 // run `count` scripts in child processes (one script at a time per process) and emit their cases
 func evBatches(cw *caseWriter, child string, prefix string, comp int, count int, r *rng, stat string, mon func(tag string, in, obs []uint64)) {
+	evBatchesD(cw, child, prefix, comp, count, 0, r, stat, mon)
+}
+
+// ... preceded by `directed` directed scripts (job lines "tag D<k>")
+func evBatchesD(cw *caseWriter, child string, prefix string, comp int, count int, directed int, r *rng, stat string, mon func(tag string, in, obs []uint64)) {
 	const workers = 8
 	var jobs [workers]bytes.Buffer
+	for k := 0; k < directed; k++ {
+		fmt.Fprintf(&jobs[k%workers], "%s D%d\n", cw.tag(prefix+"d"), k)
+	}
 	for k := 0; k < count; k++ {
 		fmt.Fprintf(&jobs[k%workers], "%s %d\n", cw.tag(prefix), r.next())
 	}
